@@ -13,6 +13,16 @@ impl PartialEq for Odd {
     }
 }
 
+/// A value type whose equality looks at a key (low nibble) only: equal values can differ, so whether the stored value
+/// survives a `fetch_or_append` hit is observable.
+#[derive(Clone, Copy, Debug)]
+pub struct Keyed(pub u8);
+impl PartialEq for Keyed {
+    fn eq(&self, o: &Keyed) -> bool {
+        self.0 & 0x0f == o.0 & 0x0f
+    }
+}
+
 pub const E_TOKEN_NOT_DENSE: u32 = 200;
 pub const E_LOOKUP_CHANGED: u32 = 201;
 pub const E_FETCH_NOT_FIRST: u32 = 202;
@@ -34,6 +44,15 @@ impl Val for u8 {
 impl Val for Odd {
     fn mk(v: u8) -> Odd {
         Odd(v)
+    }
+    fn raw(&self) -> u8 {
+        self.0
+    }
+}
+
+impl Val for Keyed {
+    fn mk(v: u8) -> Keyed {
+        Keyed(v)
     }
     fn raw(&self) -> u8 {
         self.0
@@ -118,4 +137,7 @@ pub fn storage_u8(raw: &[u8; RAW]) -> u32 {
 }
 pub fn storage_odd(raw: &[u8; RAW]) -> u32 {
     scenario::<Odd>(raw, OPS)
+}
+pub fn storage_keyed(raw: &[u8; RAW]) -> u32 {
+    scenario::<Keyed>(raw, OPS)
 }
